@@ -233,6 +233,15 @@ Section Mode.
     repeat split; try lra. apply exp_Ropp.
   Qed.
 
+  (** the exp(-Q) forms used by the code are the textbook exp(Q) forms *)
+  Lemma bose_forms_equal_l q : 0 < q ->
+    Q1_neg (OF:=ROps) q = Q1_exp (OF:=ROps) q /\ Q2_neg (OF:=ROps) q = Q2_exp (OF:=ROps) q.
+  Proof.
+    intros Hq. destruct (exp_Q_facts _ Hq) as (HX1 & HX & HE).
+    unfold Q1_neg, Q2_neg, Q1_exp, Q2_exp. rops'. rewrite HE.
+    split; field; split; lra.
+  Qed.
+
   Lemma th_term_id (lg : bool) (ei ej V T : R) (m : mode) :
     smooth_positive m -> 0 < T -> V <> 0 -> ei <> 0 -> ej <> 0 ->
     c_k K * T / V * th_term (OF:=ROps) K Q1_exp Q2_exp lg ei ej T (om m V) (gamma_of m V) (vdr_of m V)
@@ -246,6 +255,16 @@ Section Mode.
       gamma_of, vdr_of, Fth1, Fth2, BE. fold (Qm T m V) in *.
     destruct lg; rops'; fold (Qm T m V); rewrite HE; set (X := exp (Qm T m V)) in *;
       unfold Qm; field; repeat split; try assumption; lra.
+  Qed.
+
+  Lemma th_term_neg (lg : bool) (ei ej V T : R) (m : mode) :
+    smooth_positive m -> 0 < T ->
+    th_term (OF:=ROps) K Q1_neg Q2_neg lg ei ej T (om m V) (gamma_of m V) (vdr_of m V)
+    = th_term (OF:=ROps) K Q1_exp Q2_exp lg ei ej T (om m V) (gamma_of m V) (vdr_of m V).
+  Proof.
+    intros Hm HT. pose proof (Q_pos T m V HT Hm) as HQ.
+    destruct (bose_forms_equal_l _ HQ) as (E1 & E2).
+    unfold th_term, Qf. rops'. change (c_hdk K * (om m V / T)) with (Qm T m V). rewrite E1, E2. reflexivity.
   Qed.
 End Mode.
 
@@ -550,3 +569,60 @@ Section Gap.
       + assert (0 < e * e) by (apply Rsqr_pos_lt in He; exact He). nra.
   Qed.
 End Gap.
+
+(* ------------------------------------------------------------------------------------ *)
+(** * The code's exp(-Q) forms: every theorem above transfers *)
+Section CodeForms.
+  Variable K : @consts R.
+  Hypothesis Khdk : 0 < c_hdk K.
+  Variable w : list R.
+  Variable sp : list (list mode).
+  Variable na : Z.
+  Hypothesis Hsm : all_smooth sp.
+
+  Lemma map_map_ext_in {A B} (f g : A -> B) (rows : list (list A)) :
+    List.Forall (List.Forall (fun m => f m = g m)) rows -> map (map f) rows = map (map g) rows.
+  Proof.
+    induction 1 as [|row rows Hr _ IH]; cbn [map]; [reflexivity|]. f_equal; [|exact IH].
+    induction Hr as [|m row Hm _ IHr]; cbn [map]; [reflexivity|]. rewrite Hm, IHr. reflexivity.
+  Qed.
+
+  Lemma thermal_neg_eq_l (lg : bool) (ei ej V T : R) :
+    0 < T ->
+    thermal (OF:=ROps) K Q1_neg Q2_neg lg w na (sample sp (fun m => om m V))
+            (sample sp (fun m => gamma_of m V)) (sample sp (fun m => vdr_of m V)) ei ej V T
+    = thermal (OF:=ROps) K Q1_exp Q2_exp lg w na (sample sp (fun m => om m V))
+            (sample sp (fun m => gamma_of m V)) (sample sp (fun m => vdr_of m V)) ei ej V T.
+  Proof.
+    intros HT. unfold thermal, sample. rewrite !map3q_map.
+    rewrite (map_map_ext_in
+               (fun m => th_term (OF:=ROps) K Q1_neg Q2_neg lg ei ej T (om m V) (gamma_of m V) (vdr_of m V))
+               (fun m => th_term (OF:=ROps) K Q1_exp Q2_exp lg ei ej T (om m V) (gamma_of m V) (vdr_of m V))).
+    - reflexivity.
+    - unfold all_smooth in Hsm. eapply Forall_impl; [|exact Hsm]. intros row Hr.
+      eapply Forall_impl; [|exact Hr]. intros m Hm. apply th_term_neg; assumption.
+  Qed.
+
+  Lemma isothermal_neg_eq_l (lg : bool) (ei ej V T p pst : R) :
+    0 < T ->
+    isothermal (OF:=ROps) K Q1_neg Q2_neg lg w na (sample sp (fun m => om m V))
+            (sample sp (fun m => gamma_of m V)) (sample sp (fun m => vdr_of m V)) ei ej V T p pst
+    = isothermal (OF:=ROps) K Q1_exp Q2_exp lg w na (sample sp (fun m => om m V))
+            (sample sp (fun m => gamma_of m V)) (sample sp (fun m => vdr_of m V)) ei ej V T p pst.
+  Proof. intros HT. unfold isothermal. rewrite thermal_neg_eq_l by assumption. reflexivity. Qed.
+
+  Lemma gap_neg_eq_l (ei ej V T cv : R) :
+    0 < T ->
+    gap (OF:=ROps) K Q2_neg w na (sample sp (fun m => om m V)) (sample sp (fun m => gamma_of m V)) ei ej V T cv
+    = gap (OF:=ROps) K Q2_exp w na (sample sp (fun m => om m V)) (sample sp (fun m => gamma_of m V)) ei ej V T cv.
+  Proof.
+    intros HT. unfold gap, sample. rewrite !map2q_map.
+    assert (E : forall b, map (map (fun m => s_term (OF:=ROps) K Q2_neg ei ej b T (om m V) (gamma_of m V))) sp
+                      = map (map (fun m => s_term (OF:=ROps) K Q2_exp ei ej b T (om m V) (gamma_of m V))) sp).
+    { intros b. apply map_map_ext_in. unfold all_smooth in Hsm.
+      eapply Forall_impl; [|exact Hsm]. intros row Hr. eapply Forall_impl; [|exact Hr]. intros m Hm.
+      unfold s_term, Qf. rops'. change (c_hdk K * (om m V / T)) with (Qm K T m V).
+      destruct (bose_forms_equal_l _ (Q_pos K Khdk T m V HT Hm)) as (_ & ->). reflexivity. }
+    rewrite !E. reflexivity.
+  Qed.
+End CodeForms.
